@@ -196,6 +196,24 @@ def run(chk, repo, tier):
     chk.ob('C14-c', 'N-flux', fto.key, 'flux branch', ok_f and n_f > 0,
            det_f or 'converted through metres and back', fto.loc())
 
+    _, topaths, _ = analyse(repo, 'radiometry.Spectrum.to')
+    late, n_lab = [], 0
+    for p in topaths:
+        for lp in p.state.loops:
+            for bs in lp['states']:
+                evs = bs.events[lp['n_pre_events']:]
+                for label, data in (('waveunit', ('wave', 'value')), ('valueunit', ('value',))):
+                    lab = [i for i, e in enumerate(evs) if e.kind == 'write' and e.data.get('how') == 'attrstore'
+                           and e.data.get('attr') in (label, '_' + label)]
+                    dat = [i for i, e in enumerate(evs) if e.kind == 'write' and e.data.get('how') == 'attrstore'
+                           and e.data.get('attr') in data + tuple('_' + d for d in data)]
+                    if lab and dat:
+                        n_lab += 1
+                        if min(lab) < max(dat):
+                            late.append(f'{label} is re-labelled before {evs[max(dat)].data.get("attr")} is converted (at {evs[max(dat)].loc()})')
+    chk.ob('C14-c', 'D-order', 'radiometry.Spectrum.to', 'the unit label changes only after the data were converted with the old unit',
+           (not late and n_lab > 0) if (n_lab or late) else None, '; '.join(sorted(set(late))[:2]) or f'{n_lab} conversion branch(es)',
+           repo.func('radiometry.Spectrum.to').loc())
     fto_ = repo.func('radiometry.Spectrum.to')
     early = []
     for loop in [n for n in ast.walk(fto_.node) if isinstance(n, ast.For)]:
